@@ -2537,6 +2537,8 @@ def ev_tasks(e, env):
             b = E(e.value)
             if isinstance(b, Sym):
                 return Sym(f"{b.text}.{e.attr}", (b,))
+            if "__attr__" in env:  # model objects (a representative track): the caller's model answers attribute reads
+                return env["__attr__"](b, e.attr, env)
             raise CannotEval(f"attribute {u(e)[:60]}")
         if isinstance(e, (ast.Tuple, ast.List, ast.Set)):
             vals = seq(e.elts)
@@ -2607,6 +2609,10 @@ def ev_tasks(e, env):
             d = dotted(e.func) or ""
             if last_attr(e.func) == env.get("__source__"):
                 return list(env["__corpora__"])
+            if "__call__" in env:  # model objects: calls on them / with them are answered by the caller's model (NotImplemented = not one of its calls)
+                r_ = env["__call__"](e, env, E)
+                if r_ is not NotImplemented:
+                    return r_
             args = seq(e.args)
             kws = {}
             for k_ in e.keywords:
@@ -2741,6 +2747,183 @@ def every_corpus_reaches_a_task(chk, repo, ldr, rid="O14.10"):
                key=f"{_L}:{cls.name}.on_prepare_track:task-keeps-its-corpus")
 
 
+# ---- O14.11 the corpora that are prepared are those of the challenge that will run -------------------------------------------------------------------------------------
+class Model:
+    """a representative object of the track model (track / challenge / operation / parameter source / corpus): `kind` and named fields; everything else about it is unknown."""
+
+    def __init__(self, kind, **fields):
+        self.kind, self.fields = kind, fields
+
+    def __repr__(self):
+        return f"<{self.kind} {self.fields.get('name', '')}>"
+
+
+class TaskModel(list):
+    """a representative schedule element: iterating it yields its leaf tasks (itself for a plain task, the sub-tasks for a parallel element), as track.Task / track.Parallel do."""
+
+    def __init__(self, name, param_source=None, subtasks=None):
+        list.__init__(self)
+        self.kind, self.fields = "task", {"name": name, "param_source": param_source}
+        self.fields["operation"] = Model("operation", name=name, task=self)
+        self.extend(subtasks if subtasks is not None else [self])
+
+    def __repr__(self):
+        return f"<task {self.fields['name']}>"
+
+
+class TrackWorld:
+    """A model track interpreted WITH the repository's own Track class: fields the world fixes (corpora, challenges with default / selected flags and schedules) are read directly,
+    any other attribute of the track — `selected_challenge_or_default`, `default_challenge`, `find_challenge_or_default(...)` — is the property / method of track.Track, interpreted
+    statement by statement (exec_small + ev_tasks) on the model. A call that is handed exactly one task of the model (operation_parameters(t, sub_task), or whatever resolves the
+    parameter source of a task) yields that task's parameter source; DocumentCorpus.union is the union of the document sets of two same-named corpora."""
+
+    def __init__(self, trk_mod, track_cls, globs):
+        self.mod, self.cls, self.globs, self.depth = trk_mod, track_cls, globs, 0
+        self.members = trk_mod.methods(track_cls)
+
+    def env(w, names):  # noqa: N805 (`self` is a name of the interpreted code)
+        return dict(names, __yields__=Yields(), __attr__=w.attr, __call__=w.call, __globals__=w.globs)
+
+    def run(self, fn, bound):
+        self.depth += 1
+        try:
+            if self.depth > 8:
+                raise CannotEval("model: nesting too deep")
+            a = fn.args
+            env = self.env(bound)
+            for nm, dv in zip([x.arg for x in a.posonlyargs + a.args][len(a.posonlyargs + a.args) - len(a.defaults):], a.defaults):
+                if nm not in env:
+                    env[nm] = ev_tasks(dv, env)
+            kind, val, at = exec_small(fn.body, env, evalf=ev_tasks)
+            if kind == "raise":
+                raise CannotEval(f"{fn.name} ends in `{short(at, 50)}` on the model track")
+            return val if kind == "return" else None
+        finally:
+            self.depth -= 1
+
+    def attr(self, obj, name, env):
+        if isinstance(obj, (Model, TaskModel)):
+            if name in obj.fields:
+                return obj.fields[name]
+            m = self.members.get(name) if obj.kind == "track" else None
+            if m is not None and any(last_attr(d_) in ("property", "cached_property") for d_ in m.decorator_list):
+                return self.run(m, {params_of(m)[0]: obj})
+            raise CannotEval(f"model: attribute `{name}` of a {obj.kind}")
+        raise CannotEval(f"attribute `{name}` of {type(obj).__name__}")
+
+    def call(self, e, env, E):
+        d = dotted(e.func) or ""
+        if d in ("hasattr", "getattr") and 2 <= len(e.args) <= 3 and not e.keywords:
+            obj, name = E(e.args[0]), E(e.args[1])
+            if isinstance(obj, (Model, TaskModel)) and isinstance(name, str):
+                if d == "hasattr":
+                    return name in obj.fields
+                if name in obj.fields:
+                    return obj.fields[name]
+                if len(e.args) == 3:
+                    return E(e.args[2])
+                raise CannotEval(f"model: getattr `{name}` of a {obj.kind}")
+            return NotImplemented
+        if d == "next" and 1 <= len(e.args) <= 2 and not e.keywords:  # next(<generator expression / iter(...)>[, default]): the first element (search idiom)
+            items = E(e.args[0])
+            if not isinstance(items, (list, tuple)):
+                raise CannotEval(f"model: {u(e)[:50]}")
+            if items:
+                return items[0]
+            if len(e.args) == 2:
+                return E(e.args[1])
+            raise CannotEval(f"model: {u(e)[:50]} raises StopIteration")
+        if d in ("any", "all") and len(e.args) == 1 and not e.keywords:
+            items = E(e.args[0])
+            if isinstance(items, (list, tuple)):
+                return (any if d == "any" else all)(bool(x) for x in items)
+        if isinstance(e.func, ast.Attribute):
+            recv = E(e.func.value)
+            if isinstance(recv, (Model, TaskModel)):
+                args, kws = [E(a) for a in e.args], {k.arg: E(k.value) for k in e.keywords if k.arg}
+                if recv.kind == "corpus" and e.func.attr == "union" and len(args) == 1 and isinstance(args[0], Model) and args[0].kind == "corpus":
+                    if recv.fields["name"] != args[0].fields["name"]:
+                        raise CannotEval("model: union of corpora with different names (an assertion error at run time)")
+                    return recv if recv is args[0] else Model("corpus", name=recv.fields["name"], documents=sorted(set(recv.fields["documents"]) | set(args[0].fields["documents"])))
+                m = self.members.get(e.func.attr) if recv.kind == "track" else None
+                if m is not None and not m.decorator_list:
+                    b = {params_of(m)[0]: recv}
+                    b.update(dict(zip(params_of(m)[1:], args)))
+                    b.update(kws)
+                    return self.run(m, b)
+                raise CannotEval(f"model: call of `{e.func.attr}` on a {recv.kind}")
+        args = [E(a) for a in e.args if not isinstance(a, ast.Starred)] + [E(k.value) for k in e.keywords]
+        tasks = [a for a in args if isinstance(a, TaskModel)]
+        if len(tasks) == 1 and not d.startswith(("logging.", "logger.", "console.")):
+            return tasks[0].fields["param_source"]  # role 'the parameter source of this task'
+        return NotImplemented
+
+
+def prepared_corpora_are_those_of_the_running_challenge(chk, repo, ldr, rid="O14.11"):
+    """used_corpora(track) decides which corpora get a preparation task (O14.10). It is interpreted on model tracks with several challenges that use DIFFERENT corpora; the challenge that
+    will run is the selected one (track.selected_challenge_or_default: the default one only when none is selected) — every corpus / document set that challenge's schedule references must
+    be in the result."""
+    chk.rule(rid, "the corpora handed to preparation are those used by the challenge that will run: used_corpora(track), interpreted on model tracks with two challenges that use different "
+             "corpora (the track's own properties — selected / default challenge — interpreted from track.Track), returns every corpus the SELECTED challenge's schedule references (the "
+             "default challenge's only when none is selected), through plain and parallel tasks, and with the document sets of all its tasks united per corpus", 3,
+             "a challenge selected with --challenge uses a corpus / document set that the default challenge (or the first task) does not: its document files are never downloaded, "
+             "extracted, verified or given an offset table, every preparation task succeeds and the preparation reports success")
+    uc = ldr.func("used_corpora")
+    tp = params(uc, 1)[0]
+    try:
+        trk = repo.module("esrally/track/track.py")
+        tcls = trk.cls("Track")
+    except (KeyError, AnchorMissing, AttributeError) as x:
+        raise AnchorMissing(f"esrally/track/track.py: class Track ({x})")
+    chk.use(trk)
+    globs = {x.id for st in ldr.tree.body for x in ast.walk(st) if isinstance(x, ast.Name) and isinstance(x.ctx, ast.Store) and source.enclosing_func(x) is None}
+    globs |= {st.name for st in ldr.tree.body if isinstance(st, (ast.ClassDef,) + tuple(source.FUNC_TYPES))}
+    globs |= {(a.asname or a.name).split(".")[0] for st in ldr.tree.body if isinstance(st, (ast.Import, ast.ImportFrom)) for a in st.names}
+
+    def corpus(name, *docs):
+        return Model("corpus", name=name, documents=list(docs))
+
+    def task(name, *corpora, sub=None):
+        return TaskModel(name, Model("parameter source", name=f"params of {name}", corpora=list(corpora)) if corpora else Model("parameter source", name=f"params of {name}"), sub)
+
+    def challenge(name, default, selected, schedule):
+        return Model("challenge", name=name, default=default, selected=selected, schedule=schedule)
+
+    def track(*challenges):
+        return Model("track", name="model-track", corpora=[corpus("A", "a1"), corpus("B", "b1", "b2"), corpus("C", "c1")], challenges=list(challenges))
+
+    worlds = [
+        ("a non-default challenge is selected", "the selected challenge's corpora (a plain task and a sub-task of a parallel element)",
+         track(challenge("default-challenge", True, False, [task("index-a", corpus("A", "a1"))]),
+               challenge("selected-challenge", False, True, [task("no-corpus"), task("index-b", corpus("B", "b1")), task("parallel", sub=[task("search"), task("index-c", corpus("C", "c1"))])])),
+         {"B": {"b1"}, "C": {"c1"}}),
+        ("no challenge is selected", "the default challenge's corpora",
+         track(challenge("other-challenge", False, False, [task("index-b", corpus("B", "b1"))]), challenge("default-challenge", True, False, [task("index-a", corpus("A", "a1"))])),
+         {"A": {"a1"}}),
+        ("two tasks of the selected challenge use different document sets of one corpus", "the union of the document sets",
+         track(challenge("default-challenge", True, False, [task("index-a", corpus("A", "a1"))]),
+               challenge("selected-challenge", False, True, [task("index-b1", corpus("B", "b1")), task("index-b2", corpus("B", "b2")), task("index-c", corpus("C", "c1"))])),
+         {"B": {"b1", "b2"}, "C": {"c1"}}),
+    ]
+    for when, what, t, need in worlds:
+        w = TrackWorld(trk, tcls, globs)
+        try:
+            got = w.run(uc, {tp: t})
+            got = list(got) if isinstance(got, (list, tuple, set, frozenset)) else list(got.values()) if isinstance(got, dict) else None
+            if got is None or not all(isinstance(c, Model) and c.kind == "corpus" for c in got):
+                raise CannotEval(f"used_corpora does not hand back a collection of corpora on the model track ({got!r})")
+        except CannotEval as x:
+            chk.unknown(rid, f"used_corpora cannot be interpreted on the model track where {when}: {x}", uc)
+            continue
+        have = {}
+        for c in got:
+            have.setdefault(c.fields["name"], set()).update(c.fields["documents"])
+        missing = [f"{n_} (document sets {sorted(ds - have.get(n_, set()))})" for n_, ds in sorted(need.items()) if not ds <= have.get(n_, set())]
+        chk.ob(rid, f"{when}: used_corpora returns {what}", not missing, uc,
+               f"returned: { {n_: sorted(ds) for n_, ds in sorted(have.items())} }" + ("" if not missing else f" — corpus {', '.join(missing)} of the challenge that will run gets no preparation task: "
+               "its document files are never downloaded, verified or given an offset table"), key=f"{_L}:used_corpora:{when}")
+
+
 def run(chk):
     repo = chk.repo
     net, io_, ldr = repo.module(_N), repo.module(_I), repo.module(_L)
@@ -2762,7 +2945,8 @@ def run(chk):
         "module-level suffix tables incl. derived ones, offset-table removal and its existence tests evaluated for the world 'a stale table of the data file exists' with calls "
         "followed into io.py / FileOffsetTable by parameter binding, the value of download()'s temporary path when the transfer starts per (declared / undeclared size, HTTP / bucket URL, "
         "progress indicator given or not) world, the preparation-task generator interpreted with real shared containers on a track with three used corpora: which corpus each task "
-        "carries when it is yielded and when the generator is exhausted); a role that cannot be located is reported as not recognised (exit 2), never as a violation."
+        "carries when it is yielded and when the generator is exhausted, used_corpora interpreted on model tracks with two challenges that use different corpora — the track's selected / "
+        "default challenge properties interpreted from track.Track itself —: the corpora and document sets of the challenge that will run are all returned); a role that cannot be located is reported as not recognised (exit 2), never as a violation."
     )
     chk.not_decided = "archive contents, real network behaviour, crash points inside library calls (a kill between two statements of the offset-table build is covered by the rename protocol O14.8; a torn write inside os.replace is not)."
 
@@ -3431,6 +3615,7 @@ def run(chk):
 
     # ---- O14.10 every used corpus reaches a preparation task (and keeps it until the task runs) -----------------------------------------------------------------------------------
     every_corpus_reaches_a_task(chk, repo, ldr, "O14.10")
+    prepared_corpora_are_those_of_the_running_challenge(chk, repo, ldr, "O14.11")
 
     # ---- O14.7 advisory (superseded by O14.8 once a failing history was shown, F24; kept for a tree on which no rename exists anywhere) -----------------------------------
     cf_ = io_.methods(io_.cls("FileOffsetTable")).get("create_for_data_file")
@@ -3520,6 +3705,12 @@ _DT_ARM_OLD = ('                if document_set.has_compressed_corpus():\n      
 _DT_ARM_NEW = ('                self.download_corpus_file(document_set, self.download_target(document_set, doc_path, archive_path))\n                self.invalidate_file_offset_table(doc_path)\n')
 _DT_ARM_PAIR = ('                target_path, expected_size = self.download_target(document_set, doc_path, archive_path)\n'
                 '                self.downloader.download(document_set.base_url, target_path, expected_size)\n                self.invalidate_file_offset_table(doc_path)\n')
+
+_UC_CH_OLD = '        challenge = t.selected_challenge_or_default\n'
+_UC_BODY_OLD = ('                if hasattr(param_source, "corpora"):\n                    for c in param_source.corpora:\n'
+                '                        # We might have the same corpus *but* they contain different doc sets. Therefore also need to union over doc sets.\n'
+                '                        corpora[c.name] = corpora.get(c.name, c).union(c)\n')
+_UC_SUB_OLD = '            for sub_task in task:\n                param_source = operation_parameters(t, sub_task)\n'
 
 VARIANTS = [
     V("F14: truthiness on the line count", "break", _L, "        if lines_read is not None and lines_read != expected_number_of_lines:", "        if lines_read and lines_read != expected_number_of_lines:", "O14.4"),
@@ -3891,4 +4082,28 @@ VARIANTS = [
     [V('unpacked pair: the invalidation after the download is lost', 'break', _L, _DT_CLS_OLD,
        _DT_CLS_NEW.replace('class DownloadTarget(NamedTuple):\n    path: str\n    expected_size: Optional[int]\n\n\n', '').replace('return DownloadTarget(', 'return ('), 'O14.9'),
      V('', 'break', _L, _DT_ARM_OLD, _DT_ARM_PAIR.replace('                self.invalidate_file_offset_table(doc_path)\n', ''))],
+    # ---- seeded m17: used_corpora interpreted on model tracks with two challenges (the track's own properties interpreted from track.Track) ----
+    V('seed m17: corpora collected from the default challenge instead of the selected one', 'break', _L, _UC_CH_OLD, '        challenge = t.default_challenge\n', 'O14.11'),
+    V('corpora collected from the first challenge of the track', 'break', _L, _UC_CH_OLD, '        challenge = t.challenges[0]\n', 'O14.11'),
+    V('default challenge preferred over the selected one', 'break', _L, _UC_CH_OLD, '        challenge = t.default_challenge or t.selected_challenge\n', 'O14.11'),
+    V('a corpus seen again replaces the earlier one (document sets of earlier tasks are lost)', 'break', _L, _UC_BODY_OLD,
+      '                if hasattr(param_source, "corpora"):\n                    for c in param_source.corpora:\n                        corpora[c.name] = c\n', 'O14.11'),
+    V('a corpus seen again is ignored (setdefault: document sets of later tasks are lost)', 'break', _L, _UC_BODY_OLD,
+      '                if hasattr(param_source, "corpora"):\n                    for c in param_source.corpora:\n                        corpora.setdefault(c.name, c)\n', 'O14.11'),
+    V('sub-tasks of parallel elements are not visited', 'break', _L, _UC_SUB_OLD, '            for sub_task in [task]:\n                param_source = operation_parameters(t, sub_task)\n', 'O14.11'),
+    V('only the first task of the schedule is visited', 'break', _L, '        for task in challenge.schedule:\n            for sub_task in task:\n',
+      '        for task in challenge.schedule[:1]:\n            for sub_task in task:\n', 'O14.11'),
+    V('selected challenge or, if none, the default one spelled out with the two properties', 'keep', _L, _UC_CH_OLD,
+      '        selected = t.selected_challenge\n        challenge = selected if selected is not None else t.default_challenge\n'),
+    V('challenge looked up through find_challenge_or_default by the selected challenge\'s name', 'keep', _L, _UC_CH_OLD,
+      '        challenge = t.selected_challenge or t.find_challenge_or_default(None)\n'),
+    V('union spelled with a membership test, corpora read with getattr(..., [])', 'keep', _L, _UC_BODY_OLD,
+      '                for c in getattr(param_source, "corpora", []):\n                    if c.name in corpora:\n                        corpora[c.name] = corpora[c.name].union(c)\n'
+      '                    else:\n                        corpora[c.name] = c\n'),
+    V('leaf tasks collected by a comprehension first', 'keep', _L, '        for task in challenge.schedule:\n            for sub_task in task:\n',
+      '        leaves = [leaf for element in challenge.schedule for leaf in element]\n        for task in [leaves]:\n            for sub_task in task:\n'),
+    V('Track.selected_challenge as next(<generator>, None)', 'keep', "esrally/track/track.py", '        for challenge in self.challenges:\n            if challenge.selected:\n                return challenge\n        return None\n',
+      '        return next((challenge for challenge in self.challenges if challenge.selected), None)\n'),
+    V('Track.selected_challenge_or_default prefers the default challenge', 'break', "esrally/track/track.py", '        return selected if selected else self.default_challenge\n',
+      '        return self.default_challenge if self.default_challenge else selected\n', 'O14.11'),
 ]
